@@ -316,9 +316,24 @@ func identContexts(files []*ast.File) map[*ast.Ident]string {
 
 func invariants(o *vh.Out, c *checked, origin, caseLine string) {
 	ctxOf := identContexts(c.files)
+	inAST := map[*ast.Ident]bool{}
+	for _, f := range c.files {
+		ast.Inspect(f, func(n ast.Node) bool {
+			if id, ok := n.(*ast.Ident); ok {
+				inAST[id] = true
+			}
+			return true
+		})
+	}
 	cx := func(id *ast.Ident) string {
+		if strings.HasPrefix(id.Name, "_gop_") || strings.HasPrefix(id.Name, "_xgo_") {
+			return "synthesized-name"
+		}
 		if s, ok := ctxOf[id]; ok {
 			return s
+		}
+		if !inAST[id] {
+			return "outside-file-ast"
 		}
 		return "other"
 	}
@@ -421,6 +436,39 @@ func checkGo(name, src string) (*goChecked, error) {
 	conf := &types.Config{Importer: imp, Error: func(err error) { g.errs = append(g.errs, err.Error()) }}
 	conf.Check("main", fset, []*goast.File{f}, g.info)
 	return g, nil
+}
+
+// varInitSeesOuter: some `var x … = …x…` inside a function whose right-hand x is (by Go's scope
+// rules) an OUTER x, not the one being declared.
+func varInitSeesOuter(g *goChecked) bool {
+	found := false
+	goast.Inspect(g.file, func(n goast.Node) bool {
+		ds, ok := n.(*goast.DeclStmt)
+		if !ok {
+			return true
+		}
+		gd := ds.Decl.(*goast.GenDecl)
+		for _, sp := range gd.Specs {
+			vs, ok := sp.(*goast.ValueSpec)
+			if !ok {
+				continue
+			}
+			names := map[string]bool{}
+			for _, n := range vs.Names {
+				names[n.Name] = true
+			}
+			for _, v := range vs.Values {
+				goast.Inspect(v, func(m goast.Node) bool {
+					if id, ok := m.(*goast.Ident); ok && names[id.Name] && g.info.Uses[id] != nil {
+						found = true
+					}
+					return true
+				})
+			}
+		}
+		return true
+	})
+	return found
 }
 
 func typeStr(t types.Type) string {
@@ -592,7 +640,11 @@ func main() {
 		o.Count("go_programs")
 		if len(c.errs) > 0 {
 			o.Count("go_programs_with_xgo_errors")
-			o.Oracle("go-program-rejected-by-checker", line, c.errs[0])
+			key := "go-program-rejected-by-checker:other"
+			if varInitSeesOuter(g) {
+				key = "go-program-rejected-by-checker:var-initialiser-names-outer-variable"
+			}
+			o.Oracle(key, line, c.errs[0])
 			return
 		}
 		invariants(o, c, "generated Go-compatible program", line)
